@@ -124,6 +124,27 @@ def led_input(pref, post, typed, regs=None):
     return out + post, post, nls
 
 
+def _tr_upper(t):
+    return ''.join(chr(ord(c) - 32) if 'a' <= c <= 'z' else c for c in t)
+
+
+def _lines(t):
+    return t.split('\n')[:-1] if t.endswith('\n') else (t.split('\n') if t else [])
+
+
+# the ! filter: shell commands with a locale-independent, deterministic effect, and what they compute
+FILTERS = {
+    'tr a-z A-Z': _tr_upper,
+    'cat': lambda t: t,
+    'sed 1d': lambda t: ''.join(l + '\n' for l in _lines(t)[1:]),
+    'sed p': lambda t: ''.join(l + '\n' + l + '\n' for l in _lines(t)),
+    'tac': lambda t: ''.join(l + '\n' for l in reversed(_lines(t))),
+    'true': lambda t: '',
+    'printf x': lambda t: 'x',
+    'echo é; cat': lambda t: 'é\n' + t,
+}
+
+
 class Ref8(c07.Ref):
     def __init__(self, lines, rows):
         super().__init__(list(lines), rows)
@@ -324,6 +345,23 @@ class Ref8(c07.Ref):
             return
         raise ValueError(op)
 
+    def pipe(self, a1, a2, mkey, marg, cmd):
+        """! with a motion: the lines of the region are replaced by the output of the command; the cursor stays"""
+        reg_ = self.vc_region(a1, a2, '!', mkey, marg)
+        if reg_ is None:
+            self.finish(0)
+            return
+        r1, o1, r2, o2, ln = reg_
+        if mkey in ('{', '}') and 0 <= r2 < len(self.L) and self.L[r2] == '' and r1 < r2:
+            r2 -= 1
+        n = len(self.L)
+        text = ''.join(self.full(i) for i in range(r1, r2 + 1) if 0 <= i < n)
+        rep = FILTERS[cmd](text)
+        beg, end = min(r1, n), min(r2 + 1, n)
+        self.L[beg:end] = split_lines(rep)
+        self.reindex()
+        self.finish(1)
+
     def input_off(self, rep, post):
         """vi_input: offset of the last typed character in the last line of the replacement."""
         if len(rep) < len(post):
@@ -466,6 +504,8 @@ class Ref8(c07.Ref):
                     self.operator(reg, cnt, 'c', 0, 'DBL', None, text)
             elif k == 'i':
                 self.insert(c[1], c[2])
+            elif k == 'pipe':
+                self.pipe(c[1], c[2], c[3], c[4], c[5])
             else:
                 raise ValueError(k)
             if not self.L and (self.r, self.o) != (0, 0):
@@ -514,6 +554,9 @@ def keys_of(prog):
             out += regpfx(c[1]) + cnts(c[2]) + c[3] + c[4] + ESC
         elif k == 'i':
             out += c[1] + c[2] + ESC
+        elif k == 'pipe':
+            _, a1, a2, mkey, marg, cmd = c
+            out += cnts(a1) + '!' + cnts(a2) + ('!' if mkey == 'DBL' else mkey) + (marg or '') + cmd + '\n'
     return out.encode('utf-8')
 
 
@@ -590,7 +633,14 @@ def regnum(reg):
     return ord(reg) if reg else 0
 
 
+def has_pipe(prog):
+    return any(c[0] == 'pipe' for c in prog)
+
+
 def model_req(text, rows, prog):
+    """the `op` request; programs with the ! filter are outside the Coq interpreter: an empty program is sent instead"""
+    if has_pipe(prog):
+        prog = []
     w = ['op', str(rows - 1), hxs(text)]
     for c in prog:
         k = c[0]
@@ -681,8 +731,21 @@ def gen_mot(rng, text, safe):
     return key, arg
 
 
+def gen_pipe(rng, text):
+    if rng.chance(1, 4):
+        mkey, marg = 'DBL', None
+    else:
+        mkey, marg = gen_mot(rng, text, True)           # a failing motion would leave the command line to be run as keys
+    a1, a2 = gen_cnt(rng), (gen_cnt(rng) if rng.chance(1, 3) else 0)
+    if mkey == '0' or a1 * a2 > 99:
+        a2 = 0
+    return ['pipe', a1, a2, mkey, marg, rng.choice(sorted(FILTERS))]
+
+
 def gen_cmd(rng, text):
     t = rng.below(20)
+    if t < 3 and rng.chance(1, 4):
+        return gen_pipe(rng, text)
     if t < 3:
         m = c07.gen_motion(rng, text)
         return m
@@ -905,6 +968,9 @@ def run(ctx):
                 ob = c.get('_obs')
                 if ob is None:
                     continue
+                if has_pipe(c['prog']):
+                    res.count('not in the Coq interpreter (! filter)')
+                    continue
                 sh = model_shown(line)
                 res.count('model answers' if sh else 'model out of fuel')
                 if sh is None:
@@ -946,7 +1012,7 @@ def run(ctx):
         res.evaluations += 1
         inp = {'text': c['text'], 'rows': c['rows'], 'prog': c['prog'], 'keys': keys_of(c['prog']).decode('utf-8', 'replace')}
         for m in c['prog']:
-            res.count('cmd ' + (m[0] if m[0] not in ('op', 'x', 'ci', 'i') else (m[3] if m[0] in ('op', 'x', 'ci') else m[1])))
+            res.count('cmd ' + ('!' if m[0] == 'pipe' else m[0] if m[0] not in ('op', 'x', 'ci', 'i') else (m[3] if m[0] in ('op', 'x', 'ci') else m[1])))
         if ref is not None and (ref.traffic or ''.join(x + '\n' for x in ref.L) != c07.norm_text(c['text'])):
             res.nontriv(json.dumps(inp, sort_keys=True))
         if bad:
